@@ -1,5 +1,6 @@
 import Driver.SExp
 import UscxmlVerif.Model.Large
+import UscxmlVerif.Model.Fast
 import UscxmlVerif.Spec.W3C
 namespace Driver
 open UscxmlVerif UscxmlVerif.Model
@@ -16,6 +17,21 @@ def runLarge (c : Chart) : Nat → Large.EState → Large.EState
     if r == .idle || r == .finished then e else runLarge c fuel e
 
 def stepCap : Nat := 60
+
+def runFast (c : Chart) : Nat → Large.EState → Large.EState
+  | 0, e => { e with x := e.x.emit "DIVERGE" }
+  | fuel + 1, e =>
+    let (e, r) := Fast.step c e
+    let e := { e with x := (e.x.emit s!"ret:{r.toString}").emit (cfgToken c e.config) }
+    if r == .idle || r == .finished then e else runFast c fuel e
+
+def traceFast (c : Chart) (events : List String) : String :=
+  let e : Large.EState := { x := { obs := ["ret:INITIALIZED"] } }
+  let e := runFast c stepCap e
+  let e := events.foldl (fun e ev =>
+    if e.x.obs.head? == some "DIVERGE" then e
+    else runFast c stepCap { e with x := e.x.sendExt ev }) e
+  " ".intercalate e.x.obs.reverse
 
 def traceLarge (c : Chart) (events : List String) : String :=
   let e : Large.EState := { x := { obs := ["ret:INITIALIZED"] } }
@@ -35,7 +51,9 @@ def trace (line : String) : String :=
       let events := if evs == "-" then [] else evs.splitOn ","
       match engine with
       | "large" => traceLarge c events
+      | "fast" => traceFast c events
       | "spec" => " ".intercalate (Spec.W3C.run c events)
+      | "specq" => " ".intercalate (Spec.W3C.run c events { histDomainRaw := true, sharedHistory := true })
       | _ => "bad-engine"
     | none => "bad-chart"
   | _ => "bad-op"
